@@ -32,7 +32,13 @@ def main():
         extra = ('\nThis is round %s: other people have already tried the most obvious change for this property. Prefer a different code site or '
                  'mechanism than the first one that comes to mind — look through ALL the anchors and the code around them before choosing.\n' % rnd)
         ms = d['anchors'].get('mechanism', [])
-        if rnd.isdigit() and int(rnd) >= 10:
+        if rnd.isdigit() and int(rnd) >= 12:
+            extra += ('Earlier rounds covered single-site slips, state kept between calls, extreme sizes and unusual argument forms. This time make '
+                      'a change of TWO cooperating code sites that each look fine alone (e.g. a producer and a consumer changed consistently for '
+                      'the common case but inconsistently for a rare one; a constant changed in one module and its twin left alone; an encoder '
+                      'and decoder that still agree with each other but no longer with the documented format), or a change in a helper shared '
+                      'by several callers that is right for the caller you would test first and wrong for another.\n')
+        elif rnd.isdigit() and int(rnd) >= 10:
             extra += ('Earlier rounds ALSO covered state kept between calls (caches, shared defaults, class attributes). This time avoid caches '
                       'and shared state. Think instead of: deep nesting / recursion depth, very long or very many items, numeric extremes, '
                       'rarely used but legal syntax or option combinations, interactions between two features of the format, behaviour at '
